@@ -175,6 +175,7 @@ type Supervisor struct {
 	stopped bool
 	everTainted map[string]bool
 	lastFailure map[string]failureNote
+	fleetFailures map[string]int
 }
 
 func (s *Supervisor) groupCfg(name string) *GroupCfg {
@@ -246,6 +247,7 @@ func (s *Supervisor) startController() (ok bool, rejected bool) {
 	s.mem = map[string]*sizeMemory{}
 	s.lock = map[string]*lockModel{}
 	s.lastFailure = map[string]failureNote{}
+	s.fleetFailures = map[string]int{}
 	s.lifeScans = 0
 	ngs, provCfgs, problems, err := LoadOptions(s.text)
 	if err != nil || len(problems) > 0 {
